@@ -38,7 +38,7 @@ class _Recorder(object):
             raise AttributeError(name)
 
         def call(*a, **k):
-            self._log.append((self._kind, name))
+            self._log.append((self._kind, name, dict(k)))
             raise _Stop()
         return call
 
@@ -119,7 +119,8 @@ def _call_args(inner, overrides=None):
     return args
 
 
-def _run_endpoint(path, ctrl, inner, verdicts, overrides=None):
+def _run_endpoint(path, ctrl, inner, verdicts, overrides=None,
+                  is_admin=False):
     """Runs the undecorated controller method with recording stubs.
     verdicts: list of bool for successive acl.enforce calls (last repeats).
     Returns (events, outcome) - events: [('enforce', rule, allowed) |
@@ -183,7 +184,7 @@ def _run_endpoint(path, ctrl, inner, verdicts, overrides=None):
                                        'expose': pecan.expose})())
     outcome = 'returned'
     try:
-        with env.auth_ctx('proj-a', False):
+        with env.auth_ctx('proj-a', is_admin):
             inner(ctrl, **_call_args(inner, overrides))
     except _Stop:
         outcome = 'effect'
